@@ -363,7 +363,20 @@ def r01_5(run, model, only_files=None):
             pushes = [st for st in stmts if st["k"] == "ExprStmt" and st["expr"]["k"] == "MethodCall" and st["expr"]["method"] in ("push", "insert", "extend", "push_back")]
             inner = list(S.find(loop["body"], "For", "While", "Loop"))
             if not pushes:
-                # a loop that accumulates only under an `if` without an else keeps some elements and loses the others
+                # the accumulating push may sit inside `if let`s that take the element apart: a `continue` on the way to it skips the element
+                npush = [c for c in S.walk_no_closures(loop["body"]) if c["k"] == "MethodCall" and c["method"] in ("push", "push_back")
+                         and not any(S.span_contains(l2["sp"], c["sp"]) for l2 in inner)]
+                if npush and f.file in KEEP_FILES and (only_files is None or f.file in only_files):
+                    lastp = max(npush, key=lambda c: (c["sp"][0], c["sp"][1]))
+                    nconts = [x for x in S.walk_no_closures(loop["body"]) if x["k"] == "Continue" and (x["sp"][0], x["sp"][1]) < (lastp["sp"][0], lastp["sp"][1])
+                              and not any(S.span_contains(l2["sp"], x["sp"]) for l2 in inner)]
+                    it0 = S.norm_ws(run.facts.text(f.file, loop["iter"]["sp"]))
+                    if nconts and KEEP_LEDGER.get((f.name, it0)) is None:
+                        acc0 = S.norm_ws(run.facts.text(f.file, lastp["recv"]["sp"]))
+                        run.ob("R01.5", f"{f.name}|loop over {it0[:40]} into {acc0[:24]} skips elements", False, site(f.file, nconts[0]["sp"]),
+                               f"{len(nconts)} `continue` before the nested `{acc0}.push(..)`",
+                               witness="while go { match n { 0 => (), _ => step() } }: the literal arm that lowers to no statement gets no `case 0:`, Go runs "
+                                       "`default:` for 0")
                 par = S.Parents(loop["body"])
                 cond = [c for c in S.walk_no_closures(loop["body"]) if c["k"] == "MethodCall" and c["method"] in ("push", "push_back")
                         and not any(S.span_contains(l2["sp"], c["sp"]) for l2 in inner)
